@@ -19,10 +19,14 @@ RULE = (
     "products with 2-5 children incl. size-0 atoms (SplitSafe), products of 2-3 NON-atom factors (a*b*c*), "
     "EquivalenceRule, ReverseRule, EquivalenceRule(ReverseRule) and EquivalencePathRule chains of 1-5 such forms mixing "
     "two non-commuting symmetries, inferral, expansion equivalences and their reverses. "
-    "Per case, in a random order on shared caches: get_objects(n) of the root for every n <= N (N <= 8 on 2 letters, "
+    "Per case, in a random order on shared caches (so the sizes asked of one rule's cache are NOT monotone, and a "
+    "verified class that is both a factor of a product and a summand of a union is reached first through either - "
+    "corpus cases verified_cache_* pin two such orders): get_objects(n) of the root for every n <= N (N <= 8 on 2 letters, "
     "<= 6 on 3) and of other classes, the (parameters, sub_objs) pairs enumerated by get_sub_objects + "
     "itertools.product for every rule and level, get_terms(n) of every rule (the model computes it with the "
-    "transcribed get_terms from the numbers of objects in the children's dictionaries), forward_map then "
+    "transcribed get_terms from the numbers of objects in the children's dictionaries), get_terms(n) of every rule - "
+    "verification rules and brute-force children included - through the model's TERMS caches (Count/ObjectsTermsModel.v; "
+    "sizes in random order on shared terms caches), forward_map then "
     "backward_map on the objects of every rule's parent. Model and implementation are compared as sorted lists. "
     "auto_search runs under a scripted clock and a PRNG seeded from the case (the specification it returns otherwise "
     "depends on wall-clock time). "
@@ -46,16 +50,42 @@ LEVEL_TEXT = (
     "generate_objects_of_size returns a duplicate-free permutation of the class's objects for every size and "
     "parameter tuple (C07_generate_exact, C07_generate_perm); EquivalenceRule, ReverseRule of an equivalence, "
     "EquivalenceRule(ReverseRule) and EquivalencePathRule round-trip with parts in the right classes "
-    "(C07_roundtrip_*); get_terms of both constructors fed with the numbers of objects of the children returns the "
-    "lengths of the lists built by _ensure_level_objects (C07_count_eq_length_*_step). The hand-written model (Count/ObjectsModel.v) is tied to rule.py / disjoint.py / cartesian.py by "
+    "(C07_roundtrip_*); ReverseRule: the flag len(original_rule.non_empty_children()) == 1 computed from truthful "
+    "is_empty answers is true exactly when child idx is the only non-empty child (C07_reverse_flag), with the flag "
+    "false both maps raise (C07_reverse_refuses), and with the other children empty the reverse rule is a bijection "
+    "in BOTH directions between child idx and the original parent, sizes kept (C07_reverse_bijection; "
+    "C07_roundtrip_reverse, which passes the flag as `true` and needs no emptiness hypothesis, is true as stated but "
+    "is only the direction child -> parent -> child: the applied example C07_reverse_needs_others_empty shows a union "
+    "with three non-empty children where its conclusion holds, the computed flag is false and the other direction "
+    "fails); get_terms of both constructors fed with the numbers of objects of the children returns the "
+    "lengths of the lists built by _ensure_level_objects (C07_count_eq_length_*_step), fed with ANY Counters that count "
+    "the children's objects it returns a Counter that counts the parent's (C07_union_terms_level, "
+    "C07_product_terms_level), and END TO END, without assuming that the counts are right: for a closed "
+    "one-rule-per-class productive specification under the bijection contracts, from any consistent terms caches and "
+    "any consistent objects caches, the number count_objects_of_size(n, **params) returns (Rule._ensure_level / "
+    "VerificationRule._ensure_level / get_terms through the terms caches, transcribed in Count/ObjectsTermsModel.v) "
+    "equals the length of the list generate_objects_of_size(n, **params) returns, and is the length of every "
+    "duplicate-free enumeration of the class at that size and parameters (C07_count_eq_length, C07_count_exact; a "
+    "verification strategy's get_terms is assumed to be a Counter counting what its get_objects lists); "
+    "VerificationRule._ensure_level_objects: whatever the order of requests, a request for size n appends exactly "
+    "strategy.get_objects(class, k) for k = len(cache)..n to that class's cache and touches no other, so level k holds "
+    "strategy.get_objects(class, k) and get_objects(n) answers it (C07_verified_cache_append, _levels, "
+    "C07_verified_get_objects; no hypothesis on the specification). "
+    "The hand-written model (Count/ObjectsModel.v) is tied to rule.py / disjoint.py / cartesian.py by "
     "running both on descriptors of real specifications and rule objects."
 )
 LEVEL_NOTE = (
     "Trusted: Coq kernel, translator (compositions), extraction + OCaml driver, the correspondence harness. "
     "Modelled not verified: get_sub_objects of both constructors, _ensure_level_objects, the derived rules' maps, "
-    "param_map, get_terms of the two constructors. End to end, C07_count_eq_length_partial ASSUMES C01's conclusion "
-    "(count = number of objects); the assumption-free induction through the terms caches is not done (only its step, "
-    "C07_count_eq_length_union_step / _product_step) - count == len(generated) is checked on every case by the oracle. "
+    "param_map, get_terms of the two constructors, Rule._ensure_level / VerificationRule._ensure_level / get_terms / "
+    "count_objects_of_size (Count/ObjectsTermsModel.v, run against the code by the queries of kind 4: get_terms(n) of "
+    "every rule through shared terms caches, sizes in random order; the model takes a verification strategy's get_terms "
+    "to be the numbers of objects its get_objects lists; the oracle also compares count_objects_of_size with "
+    "len(generated) on every case). "
+    "C07_count_eq_length_partial (which ASSUMES the count is right) is kept beside the assumption-free "
+    "C07_count_eq_length. C07_count_eq_length treats a Counter as a dictionary (distinct keys: keys_ok) and needs the "
+    "verification strategies' contract get_terms[p] = len(get_objects[p]) (C07_count_eq_length_needs_verified_counts "
+    "shows the count changes without it). C07_reverse_flag assumes truthful is_empty answers. "
     "Productivity enters as a rank certificate over the actual reads, not derived from the forest analysis (C03/C11). "
     "Complement/Quotient rules (non-equivalence reverse rules) do not implement get_sub_objects; specifications "
     "containing them are outside the property and are skipped (counted in the evidence)."
@@ -64,6 +94,7 @@ TRUSTED = [
     "translator harness/translate.py for utils.compositions (Gen/Compositions.v); Count/CompositionsSpec.v proves its spec",
     "modelled, not verified: DisjointUnion.get_sub_objects, CartesianProduct.get_sub_objects/_new_param, "
     "Rule._ensure_level_objects/get_objects/generate_objects_of_size, VerificationRule._ensure_level_objects, "
+    "Rule._ensure_level/VerificationRule._ensure_level/get_terms/count_objects_of_size (Count/ObjectsTermsModel.v), "
     "EquivalenceRule/ReverseRule/EquivalencePathRule forward_map/backward_map, Constructor.param_map, "
     "DisjointUnion.param_map (Count/ObjectsModel.v) - tied by this correspondence",
     "the strategies' own forward_map/backward_map and non-atom verification strategies' get_objects are user code: "
@@ -76,6 +107,9 @@ ASSUMPTIONS = [
     "CartesianProduct: min/max sizes are true bounds, minima >= 0, at least one child (bounds_ok)",
     "specification closed, one rule per class, productive (rank certificate over the reads of every level)",
     "sizes n >= 0 (get_objects(-1) indexes the cache from the end in Python; outside the property)",
+    "C07_count_eq_length: a verification strategy's get_terms(class, n) is a Counter with get_terms[p] == "
+    "len(get_objects(class, n)[p]) for every p (checked per case: get_terms of every rule against brute force)",
+    "C07_reverse_flag / C07_reverse_bijection: comb_class.is_empty() is truthful",
 ]
 
 _WORLDS = {}
@@ -436,6 +470,15 @@ def _queries(w, case):
             objs = rnd.sample(objs, 120)
         qs += [[2, lab, U.enc(o)] for o in objs]
     rnd.shuffle(qs)
+    if not w.mapsonly:
+        # get_terms(n) through the TERMS caches (kind 4), of every rule incl. verification rules and the
+        # brute-force children, sizes in a random (non-monotone) order; drawn from a separate generator and
+        # inserted afterwards, so that the relative order of the other queries does not depend on them
+        rnd4 = random.Random(case["qseed"] ^ 0x5A5A5)
+        q4 = [[4, lab, rnd4.randint(0, n)] for lab in range(len(w.rules)) for _ in range(2)]
+        q4 += [[4, 0, x] for x in range(min(n, case["P"]) + 1)]
+        for q in q4:
+            qs.insert(rnd4.randint(0, len(qs)), q)
     return qs
 
 
@@ -498,6 +541,9 @@ def impl(case):
                     out.append(_canon_dict(d))
             elif kind == 3:
                 out.append(sorted([list(p), v] for p, v in r.get_terms(x).items() if v))
+            elif kind == 4:
+                t = cls.get_terms(x) if r is None else r.get_terms(x)
+                out.append(sorted([list(p), v] for p, v in t.items() if v))
             elif kind == 1:
                 ps = []
                 for param, subobjects in r.constructor.get_sub_objects(r.subobjects, x):
@@ -562,7 +608,7 @@ def oracle(case, res):
             truth = sorted([list(p), l] for p, l in U.brute(cls, x).items())
             if a != truth:
                 return "get_objects(%d) of class %d (%s) = %r, brute force %r" % (x, lab, cls, a, truth)
-        elif kind == 3:
+        elif kind in (3, 4):
             truth = sorted([list(p), len(l)] for p, l in U.brute(cls, x).items())
             if a != truth:
                 return "get_terms(%d) of rule %d = %r, numbers of objects %r" % (x, lab, a, truth)
